@@ -650,7 +650,10 @@ pub fn cmd_static(a: &Args) {
                                     }
                                     continue;
                                 }
-                                let ex = explore(budget, oracle == "dfs", cap, &backend, |ctl| {
+                                // padded frameworks: a search over the admissibility encoding may legitimately add the defended sinks one SAT call
+                                // at a time (hundreds of calls on 600 arguments): the "not going to terminate" cap grows with the size
+                                let cap_eff = if padded { cap + 8 * af.n_arguments() } else { cap };
+                                let ex = explore(budget, oracle == "dfs", cap_eff, &backend, |ctl| {
                                     let mut o = run_query(&af, sem, kind, qa, *cert, enc, ctl);
                                     if padded {
                                         if let Some(e) = o.ext.as_mut() {
